@@ -16,6 +16,7 @@ from props import c19
 TORN_CLASSES = ["zero", "one", "third", "half", "last", "complete"]
 CFG = {"replayIsComplete": True, "atomicWrite": False, "loadIsPerEntry": True, "replayOrderPreserved": True, "loadReadsCommitted": True,
        "saveOnEveryEnding": True, "savedEqualsLive": True}
+SKIPPED = []                                              # variants whose crash point fell after the completed write (see torn_step)
 NOT_INTERCEPTED = []                                      # torn variants whose state write the hooks did not reach (run tag, op index)
 FL_MISMATCH = []                                          # (run tag, op index, text): state file vs live session after a stepping request     # probed per run (see probe)
 ROWS = {}                                                 # wave 7: counts per row of the coverage table (notes/C20-report.md)
@@ -27,6 +28,8 @@ def row(name, n=1):
     ROWS[name] = ROWS.get(name, 0) + n
 
 
+WRITE_OPS = []                                            # probed: the os-level operations of one state write, in order
+EXTRA_CLASSES = []                                        # crash points after each of them but the last (`afterop1`, …)
 TMP_STATS = {}                                            # cut class -> what lay next to the state file at the restart
 STARTUPS = []                                             # (compress, listing pattern b/r, constructor outcome) per restart after damage
 DAMAGE_STATS = {"variants": 0, "listing_positions": {}, "adjacent_pairs": 0, "compressed": 0, "plain": 0}
@@ -50,14 +53,14 @@ class WriteCrash:
     rename (a writer that goes through tempfile / os.fdopen never calls the module's `open`; the disk state is the same: a torn or
     complete temporary file next to the untouched state file).  `fired` tells whether either was reached."""
     def __init__(self, cls):
-        self.cls, self.fired = cls, False
+        self.cls, self.fired, self.ops = cls, False, []
     def __enter__(self):
         import builtins
         import BPTK_Py.externalstateadapter.externalStateAdapter as esa
         hook = self
         def fake_open(file, mode="r", *a, **k):
             f = builtins.open(file, mode, *a, **k)
-            if "w" not in mode or hook.fired:
+            if "w" not in mode or hook.fired or hook.cls.startswith("afterop") or hook.cls == "record":
                 return f
             class W:
                 def write(self, text):
@@ -73,7 +76,21 @@ class WriteCrash:
         class OsProxy:
             def __getattr__(self, name):
                 return getattr(os, name)
+            def _after(self, opname, target):
+                """`afteropK`: the process dies right AFTER the K-th os-level operation of the write (= before the next one)"""
+                hook.ops.append((opname, "committed" if str(target).endswith(".json") else "tmp"))
+                if hook.cls.startswith("afterop") and len(hook.ops) == int(hook.cls[7:]) and not hook.fired:
+                    hook.fired = True
+                    raise ProcessDied()
+            def fsync(self, fd):
+                r = os.fsync(fd); self._after("fsync", "tmp"); return r
+            def remove(self, path, *a, **k):
+                r = os.remove(path, *a, **k); self._after("remove", path); return r
+            def unlink(self, path, *a, **k):
+                r = os.unlink(path, *a, **k); self._after("remove", path); return r
             def _die(self, src, dst):
+                if hook.cls.startswith("afterop") or hook.cls == "record":
+                    return
                 if str(dst).endswith(".json") and not hook.fired:
                     content = builtins.open(src).read()
                     with builtins.open(src, "w") as g:
@@ -81,9 +98,9 @@ class WriteCrash:
                     hook.fired = True
                     raise ProcessDied()
             def replace(self, src, dst, *a, **k):
-                self._die(src, dst); return os.replace(src, dst, *a, **k)
+                self._die(src, dst); r = os.replace(src, dst, *a, **k); self._after("rename", dst); return r
             def rename(self, src, dst, *a, **k):
-                self._die(src, dst); return os.rename(src, dst, *a, **k)
+                self._die(src, dst); r = os.rename(src, dst, *a, **k); self._after("rename", dst); return r
         self.had_os = "os" in esa.__dict__
         esa.open = fake_open
         esa.os = OsProxy()
@@ -297,6 +314,9 @@ class Run:
                 self.step(mid, st)
             except ProcessDied:
                 pass
+        # (an `afteropK` point that falls after the rename onto the state file is after the COMPLETED write -- e.g. the first write of
+        # an instance has fewer operations than the later ones: not a crash inside the write, the variant does not apply)
+        self.commit_done = cls.startswith("afterop") and bool(hook.ops) and hook.ops[-1] == ("rename", "committed")
         return hook.fired
 
     def file_state(self, mid):
@@ -527,6 +547,8 @@ def run_ops(hist, ops, base, tag, runner=None):
                     run.crash(); out.append(("none", None))
                 elif op[0] == "torn":
                     fired = run.torn_step(op[1], op[2], op[3])
+                    if getattr(run, "commit_done", False):
+                        SKIPPED.append(tag)
                     if not fired and run.srv is not None and run.ids.get(op[1]) in getattr(getattr(run.srv, "app", None), "_instance_manager", type("x", (), {"_instances": {}}))._instances:
                         NOT_INTERCEPTED.append((tag, len(out)))          # the request ran to its end: the write was not where the hooks are
                     if fired:
@@ -675,7 +697,8 @@ def variants(hist):
         # answered: everything continues from the last COMPLETED write
         for k, op in enumerate(ops):
             if op[0] == "step" and not unstepped_session(ops, k):
-                classes = TORN_CLASSES if hist.get("torn") == "all" else [TORN_CLASSES[(k + j) % 6] for j in (0, 2, 5)]
+                allc = TORN_CLASSES + EXTRA_CLASSES
+                classes = allc if hist.get("torn") == "all" else sorted({allc[(k + j) % len(allc)] for j in (0, 2, 5)} | set(EXTRA_CLASSES[1:]))
                 for cls in classes:
                     for lazy in ((False, True) if hist.get("torn") == "all" else (False,)):
                         out.append((f"torn@{k}:{cls}" + (":lazy" if lazy else ""),
@@ -700,7 +723,11 @@ def present(body):
 def check_variant(hist, name, ops, un_by_step, base, model_out, runner=None):
     """-> list of (key, text).  un_by_step: answers of the uninterrupted run per (mid, n-th step of mid)."""
     del NOT_INTERCEPTED[:]
+    del SKIPPED[:]
     got, files, ctor = run_ops(hist, ops, base, "c", runner)
+    if SKIPPED:
+        del SKIPPED[:]
+        return []
     if NOT_INTERCEPTED:
         # not a statement about the code: this variant could not be run (reported without an input, key `correspondence…`)
         del NOT_INTERCEPTED[:]
@@ -1061,6 +1088,7 @@ def probe(base):
     facts["loadIsPerEntry"] = probe_load(base)
     facts["replayOrderPreserved"] = probe_order(base)
     facts["loadReadsCommitted"] = probe_tmp(base)
+    facts["writeOps"], facts["commitIsAtomic"] = probe_write_ops(base)
     facts["saveOnEveryEnding"] = probe_endings(base)
     _, v = run_history(SESSIONS_WITNESS, base, only="none")
     facts["savedEqualsLive"] = not any(k == "saved-differs-from-live" for k, _, _ in v)          # (an order-only difference is not one)
@@ -1069,6 +1097,30 @@ def probe(base):
     for k in CFG:
         CFG[k] = facts[k]
     return facts
+
+
+def probe_write_ops(base):
+    """the os-level operations of the SECOND state write of an instance (fsync / remove / rename, on the temporary or the committed
+    file), recorded through the proxy of the adapter module's `os`; atomic commit = the committed path is never removed and is the
+    target of exactly one rename / replace"""
+    import contextlib, io
+    ops = []
+    with contextlib.redirect_stdout(io.StringIO()):
+        run = Run(WITNESS["spec"], False, os.path.join(base, "state-ops"))
+        try:
+            run.start(0, WITNESS["instances"][0])
+            run.step(0, {"k": "empty"})
+            with WriteCrash("record") as hook:
+                run.step(0, {"k": "empty"})
+            ops = list(hook.ops)
+        except Exception:
+            pass
+        finally:
+            run.close()
+    del WRITE_OPS[:]; WRITE_OPS.extend(ops)
+    del EXTRA_CLASSES[:]; EXTRA_CLASSES.extend(f"afterop{k}" for k in range(1, len(ops)))      # (after the last one the write is complete)
+    atomic = ("remove", "committed") not in ops and sum(1 for o in ops if o == ("rename", "committed")) == 1
+    return [f"{a}:{b}" for a, b in ops], atomic
 
 
 def probe_endings(base):
@@ -1271,6 +1323,18 @@ def gen_lean(facts):
             out += ("/-- a state file that parses but holds no session state keeps the server from starting on this tree (repair proposed) -/\n"
                     "theorem junk_state_file_stops_startup : ¬ NoStartupFailureOnJunk cfg := noStartupFailure_witness cfg (by decide) (by decide)\n"
                     "#print axioms junk_state_file_stops_startup\n")
+    fsops = ["writeTmp"] + [{"fsync:tmp": "fsyncTmp", "remove:committed": "removeCommitted", "rename:committed": "renameOnto"}.get(o) for o in facts.get("writeOps", [])]
+    if facts.get("writeOps") and None not in fsops:
+        out += (f"/-- the os-level operations of one real state write, as recorded by the probe -/\ndef writeOps : List FsOp := [{', '.join('.' + o for o in fsops)}]\n")
+        if facts["commitIsAtomic"]:
+            out += ("theorem commit_never_loses (old new : Persist) (tmp : Option Tmp) (k : Nat) : (fsRun new (some old, tmp) (writeOps.take k)).1.isSome = true :=\n"
+                    "  commit_atomic_never_loses writeOps (by decide) old new tmp k\n#print axioms commit_never_loses\n")
+        else:
+            out += ("/-- the commit is not atomic on this tree: there is a crash point of the write at which the committed file is gone -/\n"
+                    "theorem commit_can_lose (old new : Persist) : ∃ k, (fsRun new (some old, none) (writeOps.take k)).1 = none :=\n"
+                    f"  ⟨{fsops.index('removeCommitted') + 1}, rfl⟩\n#print axioms commit_can_lose\n")
+    else:
+        out += f"-- the write's os-level operations could not be recorded / are outside the modelled alphabet: {facts.get('writeOps')}\n"
     if not facts["atomicWrite"]:
         out += ("/-- the write is in place: a crash inside it costs the instance being written (allowed by the statement) -/\n"
                 "theorem write_can_lose_the_instance : ¬ NoLossInWrite cfg histDyn := noLoss_witness cfg (by decide)\n"
